@@ -15,14 +15,16 @@ from liesel.model.distreg import tau2_gibbs_kernel
 from liesel.model.goose import finite_discrete_gibbs_kernel
 
 
-def tau2_case(col, rng, change_a, rank_def):
+def tau2_case(col, rng, change_a, rank_def, scale=1.0, tiny_eig=False):
     n, p = 15, 5
     b = DistRegBuilder()
     b.add_response(rng.normal(size=n).astype(np.float32), tfd.Normal)
     b.add_predictor("loc", tfb.Identity)
     b.add_predictor("scale", tfb.Exp)
     D = np.diff(np.eye(p), n=2 if rank_def else 0, axis=0) if rank_def else np.eye(p)
-    K = (D.T @ D).astype(np.float32)
+    K = (D.T @ D * scale).astype(np.float32)
+    if tiny_eig:
+        K = np.diag([2.0, 1.0, 0.5, 0.25, 1e-8]).astype(np.float32)  # full rank, one eigenvalue below any absolute 1e-6 threshold
     b.add_np_smooth(rng.normal(size=(n, p)).astype(np.float32), K, a=0.5, b=0.3, predictor="loc", name="f")
     b.add_p_smooth(np.ones((n, 1), np.float32), m=0.0, s=3.0, predictor="scale")
     model = b.build_model()
@@ -39,7 +41,7 @@ def tau2_case(col, rng, change_a, rank_def):
     beta = np.asarray(model.vars["f_beta"].value, np.float64)
     rank = np.linalg.matrix_rank(K)
     a_star, b_star = a + rank / 2, bb + 0.5 * beta @ K.astype(np.float64) @ beta
-    inp = {"hyperparameters_changed_after_kernel_creation": change_a, "rank_deficient": rank_def, "a": a, "b": bb, "rank": int(rank)}
+    inp = {"hyperparameters_changed_after_kernel_creation": change_a, "rank_deficient": rank_def, "a": a, "b": bb, "rank": int(rank), "penalty_scale": scale, "tiny_eigenvalue": tiny_eig}
     key = jax.random.PRNGKey(int(rng.integers(0, 2**31)))
     draw = float(kernel._transition_fn(key, state)["f_tau2"])
     want = b_star / float(jax.random.gamma(key, jnp.float32(a_star)))
@@ -82,6 +84,68 @@ def discrete_case(col, rng):
                              "input": {"outcomes": values}})
 
 
+def dependent_prior_case(col, rng):
+    """the discrete variable also parameterises the PRIOR of another (non-observed) variable (spike-and-slab / discrete scale);
+    the logits handed to the categorical sampler are compared with the joint log-density up to one additive constant."""
+    values = [0.25, 1.0, 3.0]
+    grid = lsl.Var(values, name="grid")
+    k = lsl.Var(values[1], lsl.Dist(tfd.FiniteDiscrete, outcomes=grid, probs=[0.3, 0.3, 0.4]), name="k")
+    beta = lsl.param(np.float32(1.7), lsl.Dist(tfd.Normal, loc=0.0, scale=k), name="beta")
+    free = lsl.Var(np.float32(0.4), lsl.Dist(tfd.Normal, loc=k, scale=1.5), name="free")  # neither observed nor parameter
+    y = lsl.obs(rng.normal(size=3).astype(np.float32), lsl.Dist(tfd.Normal, loc=beta, scale=1.0), name="y")
+    model = lsl.GraphBuilder().add(y, free).build_model()
+    kernel = finite_discrete_gibbs_kernel("k", model)
+    iface = gs.LieselInterface(model)
+    state = iface.update_state({"beta": jnp.float32(-0.9), "free": jnp.float32(1.1), "k": jnp.float32(0.25)}, model.state)
+    joint = np.array([float(iface.log_prob(iface.update_state({"k": jnp.float32(v)}, state))) for v in values], dtype=np.float64)
+    seen = []
+    orig = jax.random.categorical
+
+    def spy(key, logits, *a, **kw):
+        seen.append(np.asarray(logits, dtype=np.float64))
+        return orig(key, logits, *a, **kw)
+
+    jax.random.categorical = spy
+    try:
+        keys = [jax.random.PRNGKey(int(rng.integers(0, 2**31))) for _ in range(6)]
+        draws = [float(kernel._transition_fn(kk, state)["k"]) for kk in keys]
+    finally:
+        jax.random.categorical = orig
+    inp = {"outcomes": values, "discrete_variable_feeds": ["prior of parameter beta", "distribution of unflagged variable free"]}
+    if seen:
+        lg = seen[0]
+        if lg.shape != (3,) or not np.allclose(lg - lg[0], joint - joint[0], atol=1e-3):
+            col.add({"sig": "native::gibbs::finite_discrete_dependent_prior", "what": f"logits {np.round(lg - lg[0], 3).tolist()} (relative to the first outcome) are not the joint log-density "
+                     f"{np.round(joint - joint[0], 3).tolist()} as a function of the variable alone", "input": inp})
+            return
+    want = [values[int(orig(kk, jnp.asarray(joint, jnp.float32)))] for kk in keys]
+    col.add(None if draws == want else {"sig": "native::gibbs::finite_discrete_dependent_prior", "what": f"draws {draws} differ from outcomes[categorical(key, joint log-densities)] = {want}", "input": inp})
+
+
+def bernoulli_case(col, rng, explicit):
+    """Bernoulli variable (outcomes derived from the distribution, or given explicitly in a non-sorted order)"""
+    z = lsl.Var(np.int32(1), lsl.Dist(tfd.Bernoulli, probs=0.3), name="z")
+    m = lsl.param(np.float32(0.3), lsl.Dist(tfd.Normal, loc=0.0, scale=2.0), name="m")
+    loc = lsl.Var(lsl.Calc(lambda zz, mm: zz * 2.0 + mm, z, m), name="loc")
+    y = lsl.obs(rng.normal(size=3).astype(np.float32) + 1.0, lsl.Dist(tfd.Normal, loc=loc, scale=0.7), name="y")
+    model = lsl.GraphBuilder().add(y).build_model()
+    outcomes = [1, 0] if explicit else None
+    kernel = finite_discrete_gibbs_kernel("z", model, outcomes=outcomes)
+    vals = outcomes if explicit else [0, 1]
+    iface = gs.LieselInterface(model)
+    state = iface.update_state({"m": jnp.float32(0.9), "z": jnp.int32(0)}, model.state)
+    bad = None
+    for _ in range(4):
+        key = jax.random.PRNGKey(int(rng.integers(0, 2**31)))
+        out = kernel._transition_fn(key, state)
+        logits = np.array([float(iface.log_prob(iface.update_state({"z": jnp.int32(v)}, state))) for v in vals])
+        want = vals[int(jax.random.categorical(key, jnp.asarray(logits, jnp.float32)))]
+        if int(out["z"]) != want:
+            bad = {"sig": "native::gibbs::finite_discrete_bernoulli", "what": f"draw {int(out['z'])} but outcomes[categorical(key, joint log-densities {logits.round(3).tolist()})] = {want}",
+                   "input": {"outcomes": vals, "explicit": explicit}}
+    col.add(bad)
+
+
 def bounded(tier, seed):
     rng = np.random.default_rng(seed)
     col = util.Collector()
@@ -95,14 +159,31 @@ def bounded(tier, seed):
                 except Exception as e:
                     col.add({"sig": f"native::gibbs::exception::{type(e).__name__}", "what": str(e)[:200], "input": {"change_a": change_a, "rank_deficient": rank_def}})
                 n += 1
+        for kw in ({"scale": 1e-7}, {"tiny_eig": True}):
+            try:
+                tau2_case(col, rng, False, "scale" in kw, **kw)
+            except Exception as e:
+                col.add({"sig": f"native::gibbs::exception::{type(e).__name__}", "what": str(e)[:200], "input": kw})
+            n += 1
         try:
             discrete_case(col, rng)
         except Exception as e:
             col.add({"sig": f"native::gibbs::exception::{type(e).__name__}", "what": str(e)[:200], "input": {"kernel": "finite_discrete"}})
         n += 1
+        try:
+            dependent_prior_case(col, rng)
+        except Exception as e:
+            col.add({"sig": f"native::gibbs::exception::{type(e).__name__}", "what": str(e)[:200], "input": {"kernel": "finite_discrete", "dependent_prior": True}})
+        n += 1
+        for explicit in (False, True):
+            try:
+                bernoulli_case(col, rng, explicit)
+            except Exception as e:
+                col.add({"sig": f"native::gibbs::exception::{type(e).__name__}", "what": str(e)[:200], "input": {"kernel": "finite_discrete", "bernoulli": True, "explicit": explicit}})
+            n += 1
     return {"evaluations": col.evals, "distinct_nontrivial": n,
-            "rule": (f"BOUNDED: DistRegBuilder models with a full-rank and a rank-deficient (second-difference) penalty, hyperparameters a, b left as built or changed AFTER the kernel was created: "
+            "rule": (f"BOUNDED: DistRegBuilder models with a full-rank and a rank-deficient (second-difference) penalty, hyperparameters a, b left as built or changed AFTER the kernel was created, plus a penalty scaled by 1e-7 and a full-rank penalty with one eigenvalue of 1e-8 (rank by matrix_rank vs. eigenvalue thresholds): "
                      "the kernel's draw for a fixed key equals b*/gamma(key, a*) with a* = a + rank/2, b* = b + beta'K beta/2 from the state, and model log-density minus log IG(a*, b*) is constant "
-                     "over a tau2 grid; finite-discrete kernel on k ~ FiniteDiscrete with a downstream Normal likelihood: draw = outcomes[categorical(key, joint log-densities)], eager and jit. "
+                     "over a tau2 grid; finite-discrete kernel on k ~ FiniteDiscrete with a downstream Normal likelihood: draw = outcomes[categorical(key, joint log-densities)], eager and jit; a model in which the discrete variable parameterises the prior of a parameter and the distribution of an unflagged variable (logits captured at jax.random.categorical and compared with the joint log-density up to a constant); the same for a Bernoulli variable with derived and with explicitly given (unsorted) outcomes. "
                      f"The sampling distributions themselves are not tested (sampler primitives trusted). seed={seed}, {reps} repetition(s)."),
             "samples": [{"hyperparameters_changed_after_kernel_creation": True, "rank_deficient": True}], "exhaustive": False, "violations": col.violations}
